@@ -292,6 +292,15 @@ func c04Run(c *core.Ctx, idx int) {
 			c.Count("trees.with-wide-stack")
 		}
 	}
+	if r.Chance(1, 8) {
+		// Conditions assembled piecemeal that never received an operator
+		tree.Walk(func(n *TNode) {
+			if n.T == "cond" && r.Chance(1, 2) {
+				n.Op = nil
+			}
+		})
+		c.Count("trees.with-operator-less-conditions")
+	}
 	if sp := core.NewRng(core.Mix(uint64(c.Seed)+0x5b1ce, uint64(idx))); sp.Chance(1, 6) {
 		// (own PRNG stream, so that the rest of the case is what it was without this step)
 		if did := Spice(sp, tree, sp.Chance(1, 2), sp.Chance(1, 2), sp.Chance(1, 2)); did != "" {
